@@ -142,7 +142,15 @@ def run(ctx):
 
     for i in range(n_docs):
         doc, info = gen.gen_doc(rng, cc=rng.random() < 0.4, copies=rng.random() < 0.3)
-        one(render_doc(doc), "generated", doc=doc, cc=rng.random() < 0.8)
+        cc = rng.random() < 0.8
+        one(render_doc(doc), "generated", doc=doc, cc=cc)
+        if i % 3 == 0 and doc:
+            # a file sharing most of its text with the previous one, then the previous one again: every parse must be
+            # answered from its own text (nothing remembered under a key that ignores an edited value)
+            d2 = gen.sibling_doc(rng, doc)
+            one(render_doc(d2), "generated:sibling", doc=d2, cc=cc)
+            one(render_doc(doc), "generated:again", doc=doc, cc=cc)
+            res.count("siblings")
     # every published model, with and without parameters and PHOTOS, in one sweep
     models = gen.known_models()
     chunk = []
